@@ -192,6 +192,12 @@ func (vc *VC) call(in ssa.Instruction, cc *ssa.CallCommon, h *Heap) []string {
 				}
 				vc.goalClause(ev, c, fmt.Sprintf("%s/at-call@%s#%d@%s", root.key, short, i+1, vc.pos(in.Pos())), "at-call", vc.curR, vc.pos(in.Pos()))
 				root.atCallSeen[short]++
+				// assert P; assume P  - once checked, the assertion is a lemma for what follows
+				ev.skolems, ev.hyps = nil, nil
+				if t, err := ev.boolExpr(c.E, false); err == nil {
+					vc.flushSkolems(ev, vc.curR)
+					vc.assume(implies(vc.curR, t))
+				}
 			}
 			vc.atInstr = nil
 		}
@@ -265,6 +271,19 @@ func (vc *VC) call(in ssa.Instruction, cc *ssa.CallCommon, h *Heap) []string {
 				}
 				if len(rows) > 0 {
 					vc.assume(fmt.Sprintf("(forall ((k Int)) (! (=> (and (<= %s k) (< k %s)) (and (<= %s (%s k)) (< (%s k) %s) %s)) :pattern ((select %s k))))", lo, hi, lo, perm, perm, hi, strings.Join(eqs, " "), rows[0]))
+				}
+				// ... and every old element is somewhere in the result (inverse permutation)
+				inv := vc.fresh("sortinv")
+				vc.declareRaw(inv, "(declare-fun "+inv+" (Int) Int)")
+				if len(rows) > 0 {
+					var eqs2 []string
+					for i, l := range ls {
+						cur := pre.H[l.Sort]
+						slot := plus("(s_slot "+s+")", num(int64(i)))
+						eqs2 = append(eqs2, fmt.Sprintf("(= (select %s (%s j)) (select %s j))", rows[i], inv, sel(sel(cur, "(s_obj "+s+")"), slot)))
+					}
+					oldRow0 := sel(sel(pre.H[ls[0].Sort], "(s_obj "+s+")"), "(s_slot "+s+")")
+					vc.assume(fmt.Sprintf("(forall ((j Int)) (! (=> (and (<= %s j) (< j %s)) (and (<= %s (%s j)) (< (%s j) %s) %s)) :pattern ((select %s j))))", lo, hi, lo, inv, inv, hi, strings.Join(eqs2, " "), oldRow0))
 				}
 				// a sort permutes: distinct positions come from distinct positions
 				vc.assume(fmt.Sprintf("(forall ((k1 Int) (k2 Int)) (! (=> (and (<= %s k1) (< k1 %s) (<= %s k2) (< k2 %s) (not (= k1 k2))) (not (= (%s k1) (%s k2)))) :pattern ((%s k1) (%s k2))))", lo, hi, lo, hi, perm, perm, perm, perm))
